@@ -510,7 +510,7 @@ void ClipperOffset::DoGroupOffset(Group& group)
 			}
 			else
 			{
-				int d = (int)std::ceil(abs_delta);
+				int64_t d = static_cast<int64_t>(std::ceil(abs_delta));
 				Rect64 r = Rect64(pt.x - d, pt.y - d, pt.x + d, pt.y + d);
 				path_out = r.AsPath();
 #ifdef USINGZ
